@@ -9,6 +9,7 @@ import (
 	xctx "github.com/xuperchain/xupercore/kernel/common/xcontext"
 	cbase "github.com/xuperchain/xupercore/kernel/consensus/base"
 	cctx "github.com/xuperchain/xupercore/kernel/consensus/context"
+	"github.com/xuperchain/xupercore/kernel/engines/xuperos"
 	"github.com/xuperchain/xupercore/kernel/engines/xuperos/common"
 	"github.com/xuperchain/xupercore/kernel/engines/xuperos/miner"
 	"github.com/xuperchain/xupercore/lib/timer"
@@ -36,6 +37,21 @@ func (nullConsensus) GetConsensusStatus() (cbase.ConsensusStatus, error) {
 // node's ledger and state and to the given producer key. Only the synchronous steps exported
 // under the verif build tag are used; the consensus-driven loop and the network are not started.
 func (n *Node) Miner(proposer *Key) *miner.Miner {
+	return miner.NewMiner(n.chainCtx(proposer))
+}
+
+// Chain returns the engine's Chain object bound to this node's components (one per node
+// instance, so that the duplicate-id cache of SubmitTx lives as long as the node does).
+func (n *Node) Chain() *xuperos.Chain {
+	n.chainMu.Lock()
+	defer n.chainMu.Unlock()
+	if n.chain == nil {
+		n.chain = xuperos.VerifNewChain(n.chainCtx(K(0)))
+	}
+	return n.chain
+}
+
+func (n *Node) chainCtx(proposer *Key) *common.ChainCtx {
 	c := &common.ChainCtx{
 		BCName:    BCName,
 		Ledger:    n.Ledger,
@@ -48,7 +64,7 @@ func (n *Node) Miner(proposer *Key) *miner.Miner {
 	}
 	c.XLog = n.Log
 	c.Timer = timer.NewXTimer()
-	return miner.NewMiner(c)
+	return c
 }
 
 func (n *Node) reqCtx() xctx.XContext {
